@@ -22,6 +22,7 @@ Section Proofs.
   Notation int_val := (int_val farith fpow fcmp i2f).
   Notation float_val := (float_val farith fpow fcmp i2f).
   Notation int_int := (int_int).
+  Notation x_ints := (C08_Paths.x_ints).
 
   Lemma drop_err_noop o x : (forall c, x = Err c -> keeps_err o = true) -> drop_err o x = x.
   Proof. destruct x; simpl; intros H; try reflexivity. rewrite (H code eq_refl). reflexivity. Qed.
@@ -101,5 +102,20 @@ Section Proofs.
     intros L R. destruct l; try discriminate; destruct r; simpl in R; try discriminate;
       destruct o as [a| |cm| | |bo]; simpl in *; try discriminate; try reflexivity;
       destruct cm; reflexivity.
+  Qed.
+
+  (* the Int-only helpers value.XInts (behind the statically bound overload Int#op@1 and the Go
+     backend's typed Int code) compute what the generic instruction computes, for every operator *)
+  Theorem static_overload_eq o l r :
+    is_int l = true -> is_int r = true -> x_ints o l r = generic o l r.
+  Proof.
+    intros L R. destruct l; try discriminate; destruct r; try discriminate; reflexivity.
+  Qed.
+
+  (* and conversely they are defined on Ints only: anything else on the right is a wild pointer *)
+  Lemma x_ints_needs_int o l r v : is_int l = true -> x_ints o l r = Ok v -> is_int r = true.
+  Proof.
+    intros L. destruct l; try discriminate; destruct r; simpl; try reflexivity;
+      unfold C08_Paths.x_ints, small_x_int, big_x_int, x_int; simpl; discriminate.
   Qed.
 End Proofs.
